@@ -29,7 +29,7 @@ import (
 func init() {
 	register(&Engine{
 		Name: "registry",
-		Rule: "EXHAUSTIVE over the live registry (every tag, every value of every enumeration, every flag of every mask, in both directions) x every public producer/consumer (TagString, XML/JSON/text writers and XML/JSON readers, EnumName/EnumByName, MarshalText/UnmarshalText of every enum and mask Go type, AppendBitmaskString/BitmaskByStr); EXHAUSTIVE over the pinned registry handed over by the Lean driver (every pinned tag, enumeration value, flag and Go type answered by the public functions as pinned; additions = extension, counted, not a violation); typed values: every enum/mask Go type (found by reflection over the message types) x {own tag, AttributeValue, element tags the library's structures use, another enumeration's tag, a mask tag, an unregistered tag} x {every registered value, edges, random} through Encoder.TagAny (XML, JSON, text) and Decoder.TagAny (XML, JSON), and every enum/mask-valued attribute as a real kmip.Attribute; plus unregistered numbers at the table edges, powers of two, 32-bit boundaries and seeded random ones; plus odd texts derived from every 7th name and a fixed list (empty, case changed, blanks/tabs inside and around, `|`, 0x/0X hex of several widths, decimal with sign/leading zeros/out of range, near-miss names); masks: every single bit 0..31, 0, all-ones, seeded random subsets. distinct = distinct protocol line; nontrivial = line about a registered entry or a non-empty text",
+		Rule: "EXHAUSTIVE over the live registry (every tag, every value of every enumeration, every flag of every mask, in both directions) x every public producer/consumer (TagString, XML/JSON/text writers and XML/JSON readers, EnumName/EnumByName, MarshalText/UnmarshalText of every enum and mask Go type, AppendBitmaskString/BitmaskByStr); EXHAUSTIVE over the pinned registry handed over by the Lean driver (every pinned tag, enumeration value, flag and Go type answered by the public functions as pinned; additions = extension, counted, not a violation); typed values: every enum/mask Go type (found by reflection over the message types) x {own tag, AttributeValue, element tags the library's structures use, another enumeration's tag, a mask tag, an unregistered tag} x {every registered value, edges, random} through Encoder.TagAny (XML, JSON, text) and Decoder.TagAny (XML, JSON), and every enum/mask-valued attribute as a real kmip.Attribute; plus unregistered numbers at the table edges, powers of two, 32-bit boundaries and seeded random ones; plus odd texts derived from every 7th name and a fixed list (empty, case changed, blanks/tabs inside and around, `|`, 0x/0X hex of several widths, decimal with sign/leading zeros/out of range, near-miss names); masks: every single bit 0..31, 0, all-ones, seeded random subsets; scopes (oracle only): EVERY tag without enumeration table (AttributeValue, CustomAttribute, every registered non-enumeration tag, the mask tags, extension and unregistered tags) and every enumeration x EVERY enumeration value name registered anywhere (own odd spellings included) through EnumByName (x every registered number through EnumName, x every flag name through BitmaskByStr) and, for AttributeValue / CustomAttribute / extension / unregistered / mask tags exhaustively and a stride of the others, through the XML and JSON readers of generic items (ttlv.Value, item nested in a structure, custom kmip.Attribute), every lookup repeated (names shared by several enumerations 48 times: no dependence on map order); destinations (oracle only): every enumeration / mask Go type x {UnmarshalText, encoding/json value and struct field, encoding/xml attribute, Decoder.TagAny XML/JSON under own tag and AttributeValue} x {every own name, flag pairs and full lists in the three separators, empty, blank, numbers, malformed, partially valid lists} x destinations pre-filled with {all ones, alternating bits, 1, sign bit, other registered values, the complement of the expected result} and ONE variable reused over the whole sequence forwards and backwards. distinct = distinct protocol line; nontrivial = line about a registered entry or a non-empty text",
 		Run:  runRegistry,
 	})
 }
@@ -1088,6 +1088,11 @@ func runRegistry(ctx *Ctx) {
 		enumTags = append(enumTags, en.Tag)
 	}
 	enumTags = append(enumTags, kmip.TagDerivationMethod, kmip.TagAttribute, 0x540001) // tags without enumeration table
+	enumTags = append(enumTags, kmip.TagAttributeValue, kmip.TagCustomAttribute, 0x42FFFF) // generic carriers, an unregistered tag
+	for _, m := range e.dump.Bitmasks {
+		enumTags = append(enumTags, m.Tag) // a mask table is not an enumeration table
+	}
+	_, sharedNames, _, _ := e.scopeSets() // names several enumerations register with different numbers
 	for _, tag := range enumTags {
 		var vals []int64
 		var names []string
@@ -1122,6 +1127,7 @@ func runRegistry(ctx *Ctx) {
 		}
 		// names of OTHER enumerations must not leak into this scope
 		texts = append(texts, "AES", "Success", "Sign", "Active", "Create")
+		texts = append(texts, sharedNames...)
 		for _, v := range nums[:min(len(nums), 12)] {
 			texts = append(texts, fmt.Sprintf("0x%08X", v), fmt.Sprintf("0x%x", v), fmt.Sprintf("%d", v), fmt.Sprintf("0X%X", v))
 		}
@@ -1202,6 +1208,8 @@ func (e *regEnv) oracles(ctx *Ctx) {
 	e.oracleEnums(ctx)
 	e.oracleEnumIter(ctx)
 	e.oracleMasks(ctx)
+	e.oracleScopes(ctx)
+	e.oracleDest(ctx)
 	e.oracleTypes(ctx)
 	e.oraclePin(ctx)
 	e.oracleAttributes(ctx)
@@ -1350,6 +1358,9 @@ func (e *regEnv) replay(ctx *Ctx) {
 	for _, l := range ctx.Replay {
 		f := strings.Fields(l)
 		if len(f) < 2 {
+			continue
+		}
+		if e.replayScope(ctx, f) {
 			continue
 		}
 		num := func(i int) (uint64, bool) {
